@@ -5,11 +5,11 @@ open RV RV.Driver RV.Integrate
 /-
   line protocol of drv_c08 (one `reb_simulation_integrate` call per line):
 
-    I kind exact tmax tmaxinf t dt dld status steps nOdes isBS fuel NB (mask:n)*NB NO (acc:dtnew)*NO
+    I kind exact tmax tmaxinf t dt dld status steps nOdes isBS fuel NB (mask:n)*NB NO (acc:dtdone:dtnew)*NO
 
   kind    once | halves | janus | adaptive
   mask    bit0 collision, bit1 user, bit2 escape, bit3 encounter, bit4 sigint, bit5 errMsg
-  answer  outcome t dt dld steps status syncs nbeats (t1 dt1 dld1 st)*nbeats      (oldest beat first)
+  answer  outcome t dt dld steps status syncs nbeats (dt0 t1 dt1 dld1 st)*nbeats      (oldest beat first)
 -/
 
 def flagsOf (tok : String) : Flags :=
@@ -21,13 +21,13 @@ def flagsOf (tok : String) : Flags :=
       n := n.toNat! }
   | _ => {}
 
-def oracleOf (tok : String) : Bool × Float :=
+def oracleOf (tok : String) : Bool × Float × Float :=
   match tok.splitOn ":" with
-  | [a, d] => (a == "1", fl d)
-  | _ => (true, 0.0)
+  | [a, d, n] => (a == "1", fl d, fl n)
+  | _ => (true, 0.0 / 0.0, 0.0 / 0.0)
 
 def beatStr (b : Beat Float) : String :=
-  s!"{hx b.t1} {hx b.dt1} {hx b.dld1} {b.st}"
+  s!"{hx b.dt0} {hx b.t1} {hx b.dt1} {hx b.dld1} {b.st}"
 
 def outStr (tag : String) (s : Sim Float) : String :=
   let beats := s.hist.reverse
@@ -51,7 +51,7 @@ def run (toks : List String) : String :=
           let flags := fl0.toArray
           let lastN : Nat := match fl0.getLast? with | some f => f.n | none => 1
           let env : Nat → Flags := fun k => if h : k < flags.size then flags[k] else { n := lastN }
-          let o : Nat → Bool × Float := fun k => if h : k < orc.size then orc[k] else (true, 0.0 / 0.0)
+          let o : Nat → Bool × Float × Float := fun k => if h : k < orc.size then orc[k] else (true, 0.0 / 0.0, 0.0 / 0.0)
           let stepFn? : Option (StepFn Float) :=
             match kind with
             | "once" => some stepOnce
